@@ -8,7 +8,7 @@ namespace PdshVerif.Dsh.Sig
 open PdshVerif.Dsh.Fan (Variant DPC)
 
 def wrank : WP → Nat
-  | .idle => 18 | .started => 17 | .rcmdL => 16 | .ready => 15 | .connecting => 14 | .connOk => 13
+  | .idle => 18 | .started => 17 | .rcmdL => 16 | .skipL => 16 | .ready => 15 | .connecting => 14 | .connOk => 13
   | .updT => 12 | .updL => 11 | .reading => 10 | .closing => 10 | .connFail => 10 | .resL => 9 | .flushed => 8
   | .tearing => 7 | .torn => 6 | .locked => 5 | .signaled => 1 | .done => 0
 
@@ -48,9 +48,9 @@ theorem sum_map_set' {α} (g : α → Nat) : ∀ {l : List α} {i : Nat} {a b : 
       have := sum_map_set' g (l := xs) (i := i) (a := a) (b := b) h'
       simp only [List.set_cons_succ, List.map_cons, List.sum_cons]; omega
 
-theorem tbl_wrank {a : WAct} {p q : WP} {c : Bool} (h : wNext a p c = some q) :
+theorem tbl_wrank {g : Bool} {a : WAct} {p q : WP} {c : Bool} (h : wNext g a p c = some q) :
     wrank q + (if a = .signal then 4 else 1) ≤ wrank p := by
-  cases c <;> cases a <;> (try (rename_i ok; cases ok)) <;> cases p <;> simp [wNext] at h <;> (try subst h) <;>
+  cases g <;> cases c <;> cases a <;> (try (rename_i ok; cases ok)) <;> cases p <;> simp [wNext] at h <;> (try subst h) <;>
     simp [wrank]
 
 theorem rank_w {s s' : St} {i : Nat} {a : WAct} (hs : wStep s i a = some s') : rank s' < rank s := by
@@ -63,12 +63,12 @@ theorem rank_w {s s' : St} {i : Nat} {a : WAct} (hs : wStep s i a = some s') : r
       sigCredit (wEffect i x a) = sigCredit x ∧ (wEffect i x a).pend = x.pend ∧
       (wEffect i x a).exited = x.exited ∧ (wEffect i x a).ws = x.ws := by
     intro x; cases a <;> simp [wEffect, drank, srank, sigCredit]
-  obtain ⟨e1, e2, e3, e4, e5, e6⟩ := e { s with ws := s.ws.set i q, ts := s.ts.set i (wWrite a p (tsAt s i)) }
-  have d1 : drank { s with ws := s.ws.set i q, ts := s.ts.set i (wWrite a p (tsAt s i)) } = drank s := by
+  obtain ⟨e1, e2, e3, e4, e5, e6⟩ := e { s with ws := s.ws.set i q, ts := s.ts.set i (wWrite s.g a p (tsAt s i)) }
+  have d1 : drank { s with ws := s.ws.set i q, ts := s.ts.set i (wWrite s.g a p (tsAt s i)) } = drank s := by
     simp [drank]
-  have d2 : srank { s with ws := s.ws.set i q, ts := s.ts.set i (wWrite a p (tsAt s i)) } = srank s := by
+  have d2 : srank { s with ws := s.ws.set i q, ts := s.ts.set i (wWrite s.g a p (tsAt s i)) } = srank s := by
     simp [srank]
-  have d3 : sigCredit { s with ws := s.ws.set i q, ts := s.ts.set i (wWrite a p (tsAt s i)) } = sigCredit s := by
+  have d3 : sigCredit { s with ws := s.ws.set i q, ts := s.ts.set i (wWrite s.g a p (tsAt s i)) } = sigCredit s := by
     simp [sigCredit]
   simp only [rank, e1, e2, e3, e4, e5, e6, d1, d2, d3]
   cases a <;> simp [wEffect] at htbl ⊢ <;> (try (cases s.sig <;> cases s.dpc.isParked <;> simp)) <;> omega
@@ -280,7 +280,7 @@ theorem rank_step {s s' : St} {l : Label} (h : Inv s) (hs : step s l = some s') 
       | deliver g => simp [Label.isTick] at hc
       | tick v => exact this.2 v rfl
 
-theorem rank_init (v : Variant) (f n : Nat) (b : Bool) (t0 : Nat) : rank (init v f n b t0) ≤ 25 * n + 16 := by
+theorem rank_init (v : Variant) (g : Bool) (f n : Nat) (b : Bool) (t0 : Nat) : rank (init v g f n b t0) ≤ 25 * n + 16 := by
   have hs : ∀ n, ((List.replicate n WP.idle).map wrank).sum = 18 * n := by
     intro n; induction n with
     | zero => rfl
@@ -290,19 +290,19 @@ theorem rank_init (v : Variant) (f n : Nat) (b : Bool) (t0 : Nat) : rank (init v
 
 /-- termination: in an execution with `k` spurious wake-ups and `d` deliveries the threads of pdsh take at most
     `25n + 16 + 2k + (2n + 8)d` steps (whatever the clock does) -/
-theorem steps_bounded {v : Variant} {f n t0 : Nat} {b : Bool} {ls : List Label} {s : St}
-    (he : Exec (init v f n b t0) ls s) :
+theorem steps_bounded {v : Variant} {g : Bool} {f n t0 : Nat} {b : Bool} {ls : List Label} {s : St}
+    (he : Exec (init v g f n b t0) ls s) :
     ls.countP Label.proper + rank s ≤
       25 * n + 16 + 2 * ls.countP Label.spurious + (2 * n + 8) * ls.countP Label.isDeliver := by
-  have key : ∀ {ls s}, Exec (init v f n b t0) ls s →
+  have key : ∀ {ls s}, Exec (init v g f n b t0) ls s →
       ls.countP Label.proper + rank s ≤
-        rank (init v f n b t0) + 2 * ls.countP Label.spurious + (2 * n + 8) * ls.countP Label.isDeliver := by
+        rank (init v g f n b t0) + 2 * ls.countP Label.spurious + (2 * n + 8) * ls.countP Label.isDeliver := by
     intro ls s he
     induction he with
     | nil => simp
     | snoc he' hs ih =>
       rename_i ls0 s0 l0 s1
-      have hinv := inv_exec (inv_init v f n b t0) he'
+      have hinv := inv_exec (inv_init v g f n b t0) he'
       have hr := rank_step hinv hs
       have hn : sigCredit s0 = 2 * n + 8 := by
         have := (exec_params he').2.2.2.2
@@ -339,7 +339,7 @@ theorem steps_bounded {v : Variant} {f n t0 : Nat} {b : Bool} {ls : List Label} 
           have := hr.2.2.2 rfl
           simp [Label.proper, Label.spurious, Label.isEnv, Label.isDeliver]; omega
   have := key he
-  have := rank_init v f n b t0
+  have := rank_init v g f n b t0
   omega
 
 end PdshVerif.Dsh.Sig
